@@ -206,8 +206,10 @@ func c19Latch(ev *evidence.Run, tier string) (states, transitions int) {
 		"empty":   {"-enable=nosuch", "-disable="},
 		"bad-rg":  {"-enable=ruleguard", "-disable=", "-@ruleguard.rules=/nonexistent/*.go"},
 		"valid-2": {"-enable-all"},
+		// a checker whose constructor fails next to a healthy one
+		"bad-rg+ok": {"-enable=ruleguard,captLocal", "-disable=", "-@ruleguard.rules=/nonexistent/*.go"},
 	}
-	names := []string{"valid", "bad-go", "empty", "bad-rg", "valid-2"}
+	names := []string{"valid", "bad-go", "empty", "bad-rg", "bad-rg+ok", "valid-2"}
 	// reference: what a pass reports without the cache
 	ref := map[string]anPass{}
 	for _, n := range names {
